@@ -2,7 +2,12 @@ import Driver.Proto
 import Uft.Model.Mcount
 import Uft.Gen.Layout
 /- driver for the libmcount hook model (C02, C05); see harness/h1_driver.c for the op set
-   CFG k=v … (optional f7fixed=0|1, default 1 = the code with the repair of F-C07-TRACEOFF-FLUSH)   TRIG <fn> item…   FSIZE <fn> <n>   T n   E pg|cyg <fn>   X   FLUSH   END -/
+   CFG k=v … (optional f7fixed=0|1, default 1 = the code with the repair of F-C07-TRACEOFF-FLUSH)   TRIG <fn> item…   FSIZE <fn> <n>   T n   E pg|cyg <fn>   X   FLUSH   END
+   Filters × non-local exits (C05/C11; harness/h1_c11_driver.c in FX mode), one output line "[hij=b ]st=idx/ridx/in/out/depth/maxdepth/time/size/en recs=…":
+   NLFIX lj pad    which of C05-LONGJMP-FILTER-LEAK / C05-EXC-PAD-FILTER are repaired (0 = as found)
+   FE pg|plt|none <fn> <flush>   a call (from a landing pad if an exception is in flight)     FR   the innermost open call returns
+   FT   __cxa_throw / __cxa_rethrow / _Unwind_Resume     FUW   the unwinder drops the innermost open call     FC   __cxa_begin_catch
+   FSJ j <fn>   setjmp@plt and its first return     FLJ j <fn> <flush>   longjmp@plt and the second return of the setjmp -/
 namespace Driver.Mcount
 open Uft.Mcount
 
@@ -14,6 +19,11 @@ structure DS where
   now : Nat := 1000
   stack : List Bool := []         -- per open script call: did the hook take it
   nout : Nat := 0                 -- records already printed
+  -- filters × non-local exits (FE/FR/FT/FUW/FC/FSJ/FLJ)
+  nlfix : NLFix := {}
+  inExc : Bool := false           -- mtdp->in_exception
+  dead : List Bool := []          -- open calls the unwinder dropped whose entries are still on the shadow stack
+  jbs : List (Nat × (JmpSave × List Bool)) := []
 
 def DS.fullCfg (d : DS) : Cfg :=
   { d.cfg with trig := fun f => (d.trigs.lookup f).getD {}, fsize := fun f => (d.sizes.lookup f).getD 16 }
@@ -72,7 +82,74 @@ def newRecs (d : DS) (s : St) : String × Nat :=
   let rs := s.out.drop d.nout
   ((if rs.isEmpty then "-" else " ".intercalate (rs.map showRec)), s.out.length)
 
+def showSt (s : St) : String :=
+  let f := s.filt
+  s!"st={s.idx}/{s.recordIdx}/{f.inCount}/{f.outCount}/{f.depth}/{f.maxDepth}/{f.time}/{f.size}/{if s.enabled then 1 else 0}"
+
+def countTrue (l : List Bool) : Nat := (l.filter id).length
+
+/-- the filters × non-local exits ops -/
+def stepNL (d : DS) (ws : List String) : Option (DS × String) :=
+  let cfg := d.fullCfg
+  let fin (d' : DS) (s' : St) (pre : String) : DS × String :=
+    let (txt, n) := newRecs d s'
+    ({ d' with st := some s', nout := n }, s!"{pre}{showSt s'} recs={txt}")
+  match ws with
+  | ["NLFIX", a, b] => some ({ d with nlfix := { ljCounts := a == "1", padOrder := b == "1" } }, "ok")
+  | ["FT"] => some (fin { d with inExc := true } d.state "")
+  | ["FUW"] =>
+    match d.stack with
+    | [] => some (d, "bad-op")
+    | t :: rest => some (fin { d with stack := rest, dead := t :: d.dead } d.state "")
+  | ["FC"] =>
+    if !d.inExc then some (fin d d.state "") else
+    let s' := unwindExc cfg d.state (List.replicate (countTrue d.dead) d.now)
+    some (fin { d with inExc := false, dead := [] } s' "")
+  | ["FE", k, fn, fl] =>
+    match fn.toNat? with
+    | none => some (d, "bad-op")
+    | some f =>
+      if k == "none" then some (fin { d with stack := false :: d.stack } d.state "hij=0 ") else
+      let ts := List.replicate (countTrue d.dead) d.now
+      let r : St × Bool × Bool :=
+        if d.inExc then
+          (if k == "plt" then padEntryPlt cfg d.nlfix d.state f d.now (fl == "1") ts
+           else padEntryPg cfg d.nlfix d.state f d.now ts)
+        else
+          (if k == "plt" then (let q := pltEntry cfg d.state f d.now (fl == "1"); (q.1, q.2, false))
+           else (let q := entry cfg .pg d.state f d.now; (q.1, q.2, false)))
+      let d1 := if r.2.2 then { d with inExc := false, dead := [] } else d
+      some (fin { d1 with stack := r.2.1 :: d1.stack } r.1 s!"hij={if r.2.1 then 1 else 0} ")
+  | ["FR"] =>
+    match d.stack with
+    | [] => some (d, "bad-op")
+    | took :: rest =>
+      let s' := if took then exit cfg d.state d.now else d.state
+      some (fin { d with stack := rest } s' "")
+  | ["FSJ", j, fn] =>
+    match j.toNat?, fn.toNat? with
+    | some j, some f =>
+      let q := pltEntry cfg d.state f d.now false
+      if !q.2 then some (fin d q.1 "") else
+      let d1 := { d with jbs := (j, (jmpSave q.1, d.stack)) :: d.jbs.filter (fun p => p.1 != j) }
+      some (fin d1 (exit cfg q.1 d.now) "")
+    | _, _ => some (d, "bad-op")
+  | ["FLJ", j, fn, fl] =>
+    match j.toNat?, fn.toNat? with
+    | some j, some f =>
+      let q := pltEntry cfg d.state f d.now (fl == "1")
+      match d.jbs.lookup j with
+      | none => some (d, "bad-op")
+      | some (sv, stk) =>
+        if !q.2 then some (fin d q.1 "") else
+        some (fin { d with stack := stk } (exit cfg (jmpRestore d.nlfix q.1 sv) d.now) "")
+    | _, _ => some (d, "bad-op")
+  | _ => none
+
 def step (d : DS) (ws : List String) : DS × String :=
+  match stepNL d ws with
+  | some r => r
+  | none =>
   match ws with
   | ["RESET"] => ({}, "ok")
   | "CFG" :: items => ({ d with cfg := items.foldl applyCfg d.cfg }, "ok")
